@@ -67,6 +67,12 @@ func (f *Rem) Call(s *slip.Scope, args slip.List, depth int) (result slip.Object
 		var z big.Int
 		_ = z.Rem((*big.Int)(num), div)
 		result = (*slip.Bignum)(&z)
+	case *slip.Ratio:
+		div := (*big.Rat)(d.(*slip.Ratio))
+		if div.Sign() == 0 {
+			slip.DivisionByZeroPanic(s, depth, slip.Symbol("rem"), args, "divide by zero")
+		}
+		result = remRatio((*big.Rat)(num), div, false)
 	case slip.Real:
 		div := (d.(slip.Real)).RealValue()
 		nf := num.RealValue()
